@@ -197,6 +197,8 @@ def corner_population(date, rnd, tid):
             p["geburtsjahr"] = gs.year_of(date) - p["alter"]
             p["kind"] = True
             p["bruttolohn_m"] = 0.0
+            # (the generator may have dressed the record as an adult: a child is no pensioner)
+            p.update({"rentner": False, "voll_erwerbsgemind": False, "teilw_erwerbsgemind": False, "m_pflichtbeitrag": 0.0, "arbeitssuchend": False, "eink_selbst_m": 0.0, "jahr_renteneintr": p["geburtsjahr"] + 67})
         if tid % 2 == 1:
             P[0]["alleinerz"] = True
         # the parents are in regular employment (child-related discounts of contributions apply to them)
@@ -213,7 +215,8 @@ def corner_population(date, rnd, tid):
         d0 = _dt.date.fromisoformat(date)
         for k_, p in enumerate(P[2:]):
             b = d0 - _dt.timedelta(days=60 + 400 * k_)
-            p.update({"alter": (d0 - b).days // 366, "geburtsjahr": b.year, "geburtsmonat": b.month, "geburtstag": min(b.day, 28), "kind": True, "bruttolohn_m": 0.0, "p_id_kindergeld_empf": P[0]["p_id"]})
+            p.update({"alter": (d0 - b).days // 366, "geburtsjahr": b.year, "geburtsmonat": b.month, "geburtstag": min(b.day, 28), "kind": True, "bruttolohn_m": 0.0, "p_id_kindergeld_empf": P[0]["p_id"],
+                      "rentner": False, "voll_erwerbsgemind": False, "teilw_erwerbsgemind": False, "m_pflichtbeitrag": 0.0, "arbeitssuchend": False, "eink_selbst_m": 0.0, "jahr_renteneintr": b.year + 67})
         P[0].update({"alter": 33, "geburtsjahr": d0.year - 33, "bruttolohn_m": 0.0, "bruttolohn_vorj_m": 9000.0, "arbeitsstunden_w": 0.0, "eink_selbst_m": 0.0, "kapitaleink_brutto_m": 0.0, "eink_vermietung_m": 0.0, "sonstig_eink_m": 0.0,
                      "elterngeld_claimed": True, "monate_elterngeldbezug": rnd.choice([0, 3]), "elterngeld_nettoeinkommen_vorjahr_m": rnd.choice([4000.0, 8000.0, 25000.0]), "rentner": False,
                      "voll_erwerbsgemind": False, "teilw_erwerbsgemind": False})
